@@ -13,7 +13,7 @@ import (
 func init() {
 	register(&propInfo{
 		ID:          "C14",
-		Explanation: "Static lockset analysis (must-hold sets per SSA instruction, entry sets propagated over static call sites) of every write-side use of the WebSocket, of the socket swap, of the message writer's lifetime and of every access to the shared per-connection tables. Decides, on all control paths of the current source, the structural necessary conditions for frames not to interleave: a common mutex at every gorilla write-side call and at the socket swap; the message writer obtained from NextWriter stays inside that critical section and is closed on every path; the lazily published writer is confined until its consumer returned; every shared table/flag has one guarding mutex held at every non-construction access.",
+		Explanation: "Static lockset analysis (must-hold sets per SSA instruction, entry sets propagated over static call sites) of every write-side use of the WebSocket, of the socket swap, of the message writer's lifetime and of every access to the shared per-connection tables. Decides, on all control paths of the current source, the structural necessary conditions for frames not to interleave: a common mutex at every gorilla write-side call and at the socket swap; the message writer obtained from NextWriter stays inside that critical section and is closed on every path; the lazily published writer is confined until its consumer returned; every shared table/flag has one guarding mutex held at every non-construction access. R14.1 also covers close control frames written with WriteControl.",
 		NotDecided:  "Real interleavings, gorilla/websocket's own correctness, unlocked reads of the socket pointer on the read side (ordered by goroutine-spawn structure, not by a lock), payload well-formedness (values through encoding/json).",
 		Assumptions: []string{
 			"gorilla/websocket allows one concurrent writer; Close and WriteControl are documented as safe to call concurrently",
